@@ -15,6 +15,8 @@ import (
 	"testing"
 
 	"github.com/lightningnetwork/lnd/fn/v2"
+	"github.com/lightningnetwork/lnd/input"
+	"github.com/lightningnetwork/lnd/lnwallet"
 	"github.com/lightningnetwork/lnd/lnwallet/chainfee"
 )
 
@@ -219,5 +221,53 @@ func TestVerifC18FindingBudgetRateRoundedUp(t *testing.T) {
 	if len(r.pubs) == 0 && errors.Is(r.lastErr, ErrNotEnoughBudget) {
 		t.Errorf("no sweep published one block before the deadline: %v",
 			r.lastErr)
+	}
+}
+
+// TestVerifC18RefWeight pins the harness' own BIP-141 weight reference
+// (c18Weight) and dust limits to the figures published by package input /
+// lnwallet (not by package sweep), for every input kind and change script of
+// the generator. It is part of the job table: if it fails the harness, not
+// lnd, needs attention.
+func TestVerifC18RefWeight(t *testing.T) {
+	for _, ch := range c18Change {
+		if got, want := c18DustLimit(ch.pk),
+			int64(lnwallet.DustLimitForSize(len(ch.pk))); got != want {
+
+			t.Fatalf("dust limit %s: %d, lnwallet says %d", ch.name,
+				got, want)
+		}
+		for n := 1; n <= 3; n++ {
+			for ki, k := range c18Kinds {
+				var (
+					ins []*c18Input
+					twe input.TxWeightEstimator
+				)
+				for i := 0; i < n; i++ {
+					m := &c18Input{
+						kind: k, value: 10_000, reqValue: 10_000,
+						reqPk: c18P2WSH.pk,
+					}
+					c18BuildInput(m, ki*8+i)
+					ins = append(ins, m)
+					if err := k.wt.AddWeightEstimation(&twe); err != nil {
+						t.Fatalf("%s: %v", k.name, err)
+					}
+					if k.reqOut {
+						twe.AddTxOutput(m.inp.RequiredTxOut())
+					}
+				}
+				twe.AddOutput(ch.pk)
+				got, err := c18Weight(ins, ch.pk)
+				if err != nil {
+					t.Fatalf("%s: %v", k.name, err)
+				}
+				if got != int64(twe.Weight()) {
+					t.Fatalf("%d x %s -> %s: reference weight %d, "+
+						"input.TxWeightEstimator %d", n, k.name,
+						ch.name, got, twe.Weight())
+				}
+			}
+		}
 	}
 }
